@@ -27,7 +27,8 @@
 EXTENDS Fs, SequencesExt, Json, IOUtils
 
 CONSTANTS Depth,       \* TLC enumerates every call sequence up to this length (history in the state)
-          EmitDepth    \* the emitted graph predicts every call sequence up to this length
+          EmitDepth,   \* the emitted graph predicts every call sequence up to this length
+          MoreInits    \* thorough tier: three more initial trees
 
 VARIABLES ini, st, hist, lastok, prev
 vars == <<ini, st, hist, lastok, prev>>
@@ -41,6 +42,10 @@ Inits == <<
   Root("p" :> FileN("a") @@ "d" :> DirN(TRUE, "x" :> FileN("c"))),
   Root("q" :> FileN("b") @@ "d" :> DirN(TRUE, "x" :> EmptyDir)),
   Root("p" :> FileN("a") @@ "d" :> DirN(TRUE, <<>>)) >>
+  \o (IF MoreInits THEN <<
+  Root("p" :> DirN(FALSE, "x" :> FileN("a")) @@ "d" :> EmptyDir),
+  Root("d" :> DirN(FALSE, "x" :> DirN(FALSE, "x" :> FileN("c"))) @@ "q" :> EmptyDir),
+  Root("p" :> DirN(TRUE, "x" :> FileN("a")) @@ "d" :> EmptyDir @@ "q" :> FileN("b")) >> ELSE <<>>)
 
 Init == /\ ini \in 1..Len(Inits) /\ st = Inits[ini] /\ hist = <<>> /\ lastok = TRUE /\ prev = Inits[ini]
 Next == /\ Len(hist) < Depth
